@@ -373,6 +373,22 @@ theorem FlowOK.envDst {cm sm : MuxL} {f : Flow} (h : FlowOK cm sm f) (e' : ESock
     unfold downSrc; split <;> simp_all [SV, goneSrc]
   exact ⟨by rw [e1]; exact h.up, by rw [e2]; exact h.down, h.cchan, h.schan⟩
 
+theorem nConnect_of_owned {cs : List Nat} {q : List Frame} {c : Nat} (h : Owned cs q) (hc : c ∉ cs) :
+    nConnect c q = 0 := by
+  apply nConnect_zero_of
+  intro fr hfr
+  cases hs : isConnect c fr with
+  | false => rfl
+  | true =>
+    exfalso
+    simp only [isConnect, Bool.and_eq_true, beq_iff_eq] at hs
+    have : isStreamCmd fr.cmd = true := by
+      simp only [isStreamCmd, Bool.or_eq_true, beq_iff_eq]
+      exact Or.inr hs.2
+    have := h fr hfr this
+    rw [hs.1] at this
+    exact hc this
+
 theorem noStream_of_owned {cs : List Nat} {q : List Frame} {c : Nat} (h : Owned cs q) (hc : c ∉ cs) :
     noStream c q := by
   intro fr hfr
@@ -399,7 +415,8 @@ theorem eofClean_of_noStream (c : Nat) (q : List Frame) (h : noStream c q) : eof
 
 theorem FlowOK.fresh (cm sm cm' : MuxL) (c : Nat) (p : ProxyS)
     (hp : p = { sw := {}, mw := { chan := c }, sockFirst := true })
-    (hcm : cm'.out = cm.out ++ [⟨c, CONNECT, []⟩]) (h1 : noStream c cm.out) (h2 : noStream c sm.out) :
+    (hcm : cm'.out = cm.out ++ [⟨c, CONNECT, []⟩]) (h1 : noStream c cm.out) (h2 : noStream c sm.out)
+    (k1 : nConnect c cm.out = 0) (k2 : nConnect c sm.out = 0) :
     FlowOK cm' sm { chan := c, c := some p } := by
   subst hp
   have hcd : isData c ⟨c, CONNECT, []⟩ = false := by
@@ -413,7 +430,7 @@ theorem FlowOK.fresh (cm sm cm' : MuxL) (c : Nat) (p : ProxyS)
   refine ⟨?_, ?_, ?_, ?_⟩
   · refine { pre := ?_, exact := ?_, shutOk := ?_, conn := ?_, fresh := ?_, clean := ?_, eofNM := ?_,
              gone := ?_, dead := ?_, srcBuf := ?_, snkBuf := ?_, srcEv := ?_, snkEv := ?_, goneShut := ?_,
-             nl1 := ?_, stopOk := ?_ }
+             nl1 := ?_, stopOk := ?_, connOk := ?_ }
     all_goals simp only [upSrc, upSink, SV, goneSink]
     · exact List.prefix_refl _
     · right; simp [hdo]
@@ -437,9 +454,13 @@ theorem FlowOK.fresh (cm sm cm' : MuxL) (c : Nat) (p : ProxyS)
         simp [isStop]; exact fun h => absurd h.symm cmds_distinct.2.2.2.2.2
       rw [hcm, hasStop_append, hasStop_noStream c _ h1] at hh
       simp [hasStop, hcs] at hh
+    · right
+      refine ⟨?_, trivial⟩
+      rw [hcm, nConnect_append, k1, nConnect_single]
+      simp [isConnect]
   · refine { pre := ?_, exact := ?_, shutOk := ?_, conn := ?_, fresh := ?_, clean := ?_, eofNM := ?_,
              gone := ?_, dead := ?_, srcBuf := ?_, snkBuf := ?_, srcEv := ?_, snkEv := ?_, goneShut := ?_,
-             nl1 := ?_, stopOk := ?_ }
+             nl1 := ?_, stopOk := ?_, connOk := ?_ }
     all_goals simp only [downSrc, downSink, KV, goneSrc]
     · exact List.prefix_refl _
     · right; simp [dataOf_noStream c _ h2]
@@ -457,6 +478,7 @@ theorem FlowOK.fresh (cm sm cm' : MuxL) (c : Nat) (p : ProxyS)
     · intro _ h; cases h
     · intro _ h; cases h
     · intro hh; rw [hasStop_noStream c _ h2] at hh; cases hh
+    · exact Or.inl k2
   · intro q hq
     simp only [Option.some.injEq] at hq
     subst hq; exact ⟨rfl, rfl⟩
